@@ -107,7 +107,7 @@ theorem stepLocal_late (F : Flags) (o : Obs) (x : Act) (ev : Ev) (y : Act) (eff 
     (h : stepLocal F o x ev = some (y, eff)) :
     cmdFree y.phase = true ∧ y.started = x.started ∧ y.regs = x.regs ∧ y.ran = x.ran := by
   steplocal_cases h
-  all_goals (try (simp_all [cmdFree, lateBlocked, Act.stop]; done))
+  all_goals (try (simp_all [cmdFree, lateBlocked, Act.stop, Act.stopDeps]; done))
   all_goals (simp_all [cmdFree, lateBlocked])
 
 theorem stepLocal_not_done (F : Flags) (o : Obs) (x : Act) (ev : Ev) (y : Act) (eff : Eff)
@@ -213,7 +213,8 @@ theorem stepLocal_failInv (F : Flags) (o : Obs) (x : Act) (ev : Ev) (y : Act) (e
     (y.waitsFor = none → (postPhase y.phase = true ∨ y.phase = .early) → y.res.isOk = false) := by
   steplocal_cases h
   all_goals (try (simp_all [cmdFree, postPhase, waiterPhase13, Act.stop, Res.isOk]; done))
-  all_goals (simp_all [cmdFree, postPhase, waiterPhase13, Act.stop, Res.isOk])
+  all_goals (try (simp_all [cmdFree, postPhase, waiterPhase13, Act.stopDeps, depErr_isOk]; done))
+  all_goals (simp_all [cmdFree, postPhase, waiterPhase13, Act.stop, Act.stopDeps, Res.isOk])
 
 theorem waiter_after {p : Phase} (h : afterPhase p) {Q : Prop} : waiterPhase13 p = true → Q := by
   intro hy; rcases h with e | e | e <;> rw [e] at hy <;> cases hy
@@ -223,7 +224,7 @@ theorem stepLocal_waiter (F : Flags) (o : Obs) (x : Act) (ev : Ev) (y : Act) (ef
     (hw : waiterPhase13 x.phase = true → x.waitsFor ≠ none)
     (h : stepLocal F o x ev = some (y, eff)) : waiterPhase13 y.phase = true → y.waitsFor ≠ none := by
   steplocal_cases h
-  all_goals (try (simp_all [waiterPhase13, Act.stop]; done))
+  all_goals (try (simp_all [waiterPhase13, Act.stop, Act.stopDeps]; done))
   all_goals first
     | exact waiter_after (next_static _ _ _).2.2.2.2.2.2
     | exact waiter_after (afterCmd_static _ _ _).2.2.2.2.2
